@@ -120,7 +120,10 @@ func (g *gen) lockCall(multiPct int) {
 	} else {
 		ids = []int{g.aimedKey()}
 	}
-	o := g.opts()
+	g.lockOn(ids, g.opts())
+}
+
+func (g *gen) lockOn(ids []int, o string) {
 	res := g.emit(fmt.Sprintf("lock %s %s", listStr(ids), o))
 	g.calls++
 	g.noteLock(ids, o, res)
@@ -250,6 +253,35 @@ func (g *gen) randomCase() {
 	}
 	shape := g.rd.Intn(100)
 	switch {
+	case shape < 7 && g.n >= 2:
+		// dead lock: the contender holds k2 and has waited for k1, which this transaction holds, when it asks for k2
+		g.count("case:deadlock")
+		k1 := g.key()
+		k2 := 1 + (k1+g.rd.Intn(g.n-1))%g.n
+		g.emit(fmt.Sprintf("olock %d", k2))
+		agg := g.rd.Bool()
+		if agg {
+			g.emit("start")
+		}
+		g.emit("ts")
+		g.recent = []int{k1, k2}
+		g.lockOn([]int{k1}, g.opts())
+		g.emit(fmt.Sprintf("olock %d", k1))
+		g.lockOn([]int{k2}, g.opts())
+		if agg && g.inAgg() {
+			if g.rd.Chance(60) {
+				g.emit("retry")
+				g.emit("ts")
+				g.lockCall(5)
+				if g.rd.Bool() {
+					g.emit("orel")
+				}
+				g.lockCall(5)
+			}
+			g.safeToGoOn()
+		} else if g.rd.Bool() {
+			g.plainStatement()
+		}
 	case shape < 55:
 		g.count("case:agg")
 		if g.rd.Chance(30) {
